@@ -107,6 +107,8 @@ def run(run, model, proof):
                 uhs.clear()
     for _ in range(20 if thorough else 3):
         cli_lookup_bypass(run, rng)
+    for _ in range(12 if thorough else 3):
+        cli_option_mapping(run, model, rng)
     run.evaluations += cells
     # distinct cells = configs x 2048 (each config has its own noise word)
     run.nontrivial = set(range(min(cells, 5000000)))
@@ -114,6 +116,42 @@ def run(run, model, proof):
     run.sample(dict(bits="0b100000 (--only)", severities=[5], sev=5, flags=0x2000, model=model.call("consider_table", bytes([32]), bytes([5]), b"\0\0")[5 * 8:5 * 8 + 8]))
     run.sample(dict(bits=0, severities=[], lookup="plid", note="look-up bypass row for sev 0x40",
                     model=model.call("consider_table", bytes([64]), b"", b"\0\0")[0x40 * 8:0x40 * 8 + 8]))
+
+
+def cli_option_mapping(run, model, rng):
+    """the selection options through the real command line (how main() turns -E -t -s -N -H -O, alone and together, into the Config
+    the decision procedure sees): --show-pel-count on a directory with one PEL of each class against the model's count"""
+    import cli_runner
+    import dirgen
+    from props import c04
+    from collections import OrderedDict
+    files = []
+    for i, (sev, flags) in enumerate([(0x40, 0xA000), (0x40, 0x4000), (0x40, 0x0000), (0x00, 0x0000), (0x51, 0x2000), (0x51, 0x4000), (0x10, 0x2000),
+                                      (0x00, 0x8000), (0x21, 0xA000)]):
+        d = bytearray(c04.mini_pel(b"O", [(b"UD", 1, 1, 0x2000, b"{}")]))
+        d[58] = sev
+        d[66:68] = flags.to_bytes(2, "big")
+        files.append(("c%d_%08X" % (i, 0x5500 + i), dirgen.set_ids(bytes(d), eid=0x5500 + i), dict(kind="pel", eid=0x5500 + i)))
+    combos = [0b100000, 0b100010, 0b000010, 0b100100, 0b101000, 0b110000, 0b000000, rng.randrange(64), rng.randrange(64)]
+    with dirgen.TempDir(files) as dpath:
+        for bits in combos:
+            argv = ["-p", dpath] + cli_runner.sel_argv(bits, ()) + ["-n"]
+            rc, out, err = cli_runner.run_inproc(argv)
+            m = pelgen_to_py(dirgen.model_cli(model, 0, files, bits=bits))
+            run.evaluations += 1
+            run.count("cli-options")
+            try:
+                got = json.loads(out).get("Number of PELs found")
+            except Exception:  # noqa: BLE001
+                got = None
+            if rc != 0 or got != m.get("count"):
+                run.violation("select:cli-options", "peltool %s counts %r, the documented rules give %r" % (" ".join(argv[2:]), got, m.get("count")),
+                              dict(kind="S", fn="cli-options", argv=argv[2:], bits=bits, files=[[f[0], f[1].hex()] for f in files], got=got, want=m.get("count")))
+
+
+def pelgen_to_py(x):
+    import pelgen
+    return pelgen.to_py(x)
 
 
 def cli_lookup_bypass(run, rng):
